@@ -89,10 +89,36 @@ struct AccShared {
 extern "C" {
     fn getrlimit(resource: i32, rlim: *mut [u64; 2]) -> i32;
     fn setrlimit(resource: i32, rlim: *const [u64; 2]) -> i32;
+    fn dup(fd: i32) -> i32;
+    fn close(fd: i32) -> i32;
 }
 const RLIMIT_NOFILE: i32 = 7;
 fn open_fds() -> u64 {
     std::fs::read_dir("/proc/self/fd").map(|d| d.count() as u64).unwrap_or(64)
+}
+
+/// Makes the descriptor table dense (dup(0) returns the lowest free number; earlier scenarios may have left gaps
+/// below descriptors that are still open) and returns the fillers and the limit under which no new descriptor can
+/// be had: the number of the highest descriptor in use + 1.  `fallback` = the count-based guess.
+fn fill_fd_gaps(fallback: u64) -> (Vec<i32>, u64) {
+    let mut fillers = Vec::new();
+    for _ in 0..4096 {
+        let f = unsafe { dup(0) };
+        if f < 0 {
+            break;
+        }
+        fillers.push(f);
+        // open_fds() counts its own directory descriptor too
+        if (f as u64) + 2 >= open_fds() {
+            return (fillers, f as u64 + 1);
+        }
+    }
+    (fillers, fallback)
+}
+fn close_all(fds: Vec<i32>) {
+    for f in fds {
+        unsafe { close(f) };
+    }
 }
 
 fn acc_case(toks: &[String]) -> (String, bool) {
@@ -204,10 +230,12 @@ fn acc_case(toks: &[String]) -> (String, bool) {
             unsafe { getrlimit(RLIMIT_NOFILE, &mut lim) };
             let cur = open_fds();
             let client = TcpStream::connect_timeout(&addr, Duration::from_millis(1000)).ok();
-            let low = [cur.min(lim[0]), lim[1]];
+            let (fillers, top_fd) = fill_fd_gaps(cur);
+            let low = [top_fd.min(lim[0]), lim[1]];
             unsafe { setrlimit(RLIMIT_NOFILE, &low) };
             std::thread::sleep(Duration::from_millis(200 + 500 * e));
             unsafe { setrlimit(RLIMIT_NOFILE, &lim) };
+            close_all(fillers);
             // the logger works again: everything queued and everything sent from now on is taken
             let drainer = std::thread::spawn(move || for _ev in rx {});
             clients.push(client);
@@ -225,18 +253,27 @@ fn acc_case(toks: &[String]) -> (String, bool) {
             unsafe { getrlimit(RLIMIT_NOFILE, &mut lim) };
             let cur = open_fds();
             let client = TcpStream::connect_timeout(&addr, Duration::from_millis(1000)).ok();
-            let low = [cur.min(lim[0]), lim[1]];
+            let (fillers, top_fd) = fill_fd_gaps(cur);
+            let low = [top_fd.min(lim[0]), lim[1]];
+            let admitted_before = sh.admitted.load(SeqCst);
             unsafe { setrlimit(RLIMIT_NOFILE, &low) };
             std::thread::sleep(Duration::from_millis(200 + 500 * e));
+            if sh.admitted.load(SeqCst) != admitted_before {
+                // accept() succeeded under the lowered limit: a descriptor was freed meanwhile (a late close by an earlier
+                // scenario) and the injection did not hold -- not a measurement: repeat the case
+                matched = false;
+            }
             if c.starts_with('F') {
                 top.revoke();
                 pred.revoke();
                 step(&pred, &mut stopped, &mut out, &mut matched);
                 unsafe { setrlimit(RLIMIT_NOFILE, &lim) };
+                close_all(fillers);
                 scratch_clients.push(client);
                 continue;
             }
             unsafe { setrlimit(RLIMIT_NOFILE, &lim) };
+            close_all(fillers);
             clients.push(client);
             pred.connect();
         } else {
